@@ -91,13 +91,17 @@ _cache = {}
 
 
 def data_of(spec):
-    key = (spec["t"], spec.get("n"), spec.get("s"), spec.get("b"), spec.get("v"))
+    key = (spec["t"], spec.get("n"), spec.get("s"), spec.get("b"), spec.get("v"), spec.get("h"), spec.get("p"), spec.get("e"))
     if key in _cache:
         return _cache[key]
     if spec["t"] == "hex":
         d = bytes.fromhex(spec["v"])
     elif spec["t"] == "fill":
         d = bytes([spec["b"]]) * spec["n"]
+    elif spec["t"] == "rep":       # head + pattern repeated + tail, exactly n bytes
+        head, pat, tail = (bytes.fromhex(spec[k]) for k in ("h", "p", "e"))
+        body = max(0, spec["n"] - len(head) - len(tail))
+        d = (head + (pat * (body // len(pat) + 1))[:body] + tail)[:spec["n"]]
     else:
         d = random.Random(spec["s"]).randbytes(spec["n"])
     if len(_cache) > 8:
@@ -616,6 +620,10 @@ def gen_data(rng, n, style):
         return {"t": "fill", "n": n, "b": 0}
     if style == "ff":
         return {"t": "fill", "n": n, "b": 255}
+    if style == "text":            # where strip() / text mode / newline translation would bite
+        edge = [b"\n", b"\r\n", b"\r", b" ", b"\t", b"/", b"\0", b"\n\n", b"\x1a", b"\xef\xbb\xbf", b"\xff", b""]
+        pat = b"".join(rng.choice([b"a", b"line", b" ", b"\n", b"\r\n", b"\t", b"/", b"\xc3\xa9", b"0"]) for _ in range(rng.randrange(1, 12)))
+        return {"t": "rep", "n": n, "h": rng.choice(edge).hex(), "p": pat.hex(), "e": rng.choice(edge[:8]).hex()}
     if n <= 64:
         return {"t": "hex", "v": rng.randbytes(n).hex()}
     return {"t": "rand", "n": n, "s": rng.randrange(1 << 30)}
@@ -671,19 +679,19 @@ def gen(rng, tier):
     cases = []
     edge = sorted({n for n in [0, 1, 2] + [k * BLOCK + d for k in range(4) for d in range(-2, 3)] if n >= 0})
     cut_styles = ["random", "empties", "blocks", "around-blocks", "bytes", "whole", "none", "random"]
-    data_styles = ["rand", "zero", "ff"]
+    data_styles = ["rand", "zero", "ff", "text"]
     lengths = []
     for i, n in enumerate(edge):
-        for j, ds in enumerate(data_styles if not quick else [data_styles[i % 3]]):
+        for j, ds in enumerate(data_styles if not quick else [data_styles[i % 4]]):
             for cs in (cut_styles if not quick else [cut_styles[(i + j) % len(cut_styles)], cut_styles[(i + 3) % len(cut_styles)]]):
                 lengths.append((n, ds, cs))
-    n_random = 90 if quick else 1800
+    n_random = 150 if quick else 1800
     for k in range(n_random):
         r = rng.random()
         n = rng.randrange(0, 2000) if r < 0.5 else rng.randrange(2000, 100001)
         if not quick and r > 0.9:
             n = rng.choice(edge)
-        lengths.append((n, rng.choice(data_styles + ["rand", "rand"]), rng.choice(cut_styles)))
+        lengths.append((n, rng.choice(data_styles + ["rand", "text"]), rng.choice(cut_styles)))
     big_exec = 0
     for idx, (n, ds, cs) in enumerate(lengths):
         if cs == "bytes" and n > 3000:
@@ -707,12 +715,13 @@ def gen(rng, tier):
             big_exec += 1
         cases.append(c)
     for c in cases:
-        if c["data"].get("n", 1) >= 1 and c["data"].get("v", "00") != "":
+        if len(data_of(c["data"])) >= 1:
             c["subproc"] = True            # exactly one real `python -m swh.model.cli` subprocess per run
             break
     # link targets: symlinks need NUL-free data; make sure some are exercised
     for k in range(6 if quick else 60):
         tgt = bytes(rng.choice(b"abc/._-xyz\xc3\xa9 ") for _ in range(rng.choice([1, 2, 7, 40, 300])))
+        tgt = rng.choice([b"", b"/", b" ", b"../", b"./"]) + tgt + rng.choice([b"", b"/", b"//", b" ", b"\n", b"/.", b"\xff"])
         cases.append({"kind": "routes", "data": {"t": "hex", "v": tgt.hex()}, "cuts": gen_cuts(rng, len(tgt), "random"),
                       "sched": gen_sched(rng, len(tgt)), "symlink": True, "exec": ["db"], "git": True})
     # names: subsets of ALGORITHMS + "length"
@@ -756,7 +765,7 @@ def gen(rng, tier):
         cases.append({"kind": "names", "data": gen_data(rng, n, "rand"), "names": names, "length": length,
                       "cuts": gen_cuts(rng, n, "random"), "sched": gen_sched(rng, n)})
     # scripts: update* ; copy ; update* on both ; digest both  (and freer interleavings)
-    for k in range(120 if quick else 2500):
+    for k in range(300 if quick else 2500):
         names = [a for a in universe if rng.random() < 0.45] or ["sha1"]
         rng.shuffle(names)
         chunks = [rng.randbytes(rng.choice([0, 0, 1, 2, 5, 64, 200])) for _ in range(rng.randrange(1, 9))]
@@ -852,13 +861,15 @@ def shrink(c):
         return
     data = data_of(c["data"])
     n = len(data)
-    for m in sorted({0, 1, n // 2, n - 1, BLOCK, BLOCK + 1} - {n}):
+    for m in sorted({0, 1, 2, n // 2, n - 1, BLOCK, BLOCK + 1} - {n}):
         if 0 <= m < n:
-            c2 = dict(c)
-            c2["data"] = {"t": "hex", "v": data[:m].hex()} if m <= 4096 else {"t": "fill", "n": m, "b": data[0]}
-            for f in ("exec", "git", "subproc"):
-                c2.pop(f, None)
-            yield c2
+            for piece in (data[:m], data[n - m:], data[:m // 2] + data[n - (m - m // 2):]):
+                c2 = dict(c)
+                c2["data"] = {"t": "hex", "v": piece.hex()} if m <= 4096 else \
+                             {"t": "rep", "n": m, "h": piece[:1].hex(), "p": piece[1:2].hex() or "00", "e": piece[-1:].hex()}
+                for f in ("exec", "git", "subproc"):
+                    c2.pop(f, None)
+                yield c2
     if c["cuts"]:
         yield dict(c, cuts=[])
         yield dict(c, cuts=c["cuts"][:len(c["cuts"]) // 2])
